@@ -273,6 +273,19 @@ check("C17",
       "TLA+ border-assignment function model-checked for n = 3..16 (C17_MC); TLC trace validation with MeshCore border order and exact weights (C17_Trace)",
       "DESIGN.md 6.17")
 
+check("C19",
+      "TLC checks over exact rationals that de Casteljau's recursion equals the Bernstein form, interpolates the end points and stays "
+      "within the control points' bounds for every control polygon of 2..4 points in {0,1,2}^d (d = 1, 2) and every parameter k/4 "
+      "(37 440 combinations). Real Bezier curves / patches with integer control nets are evaluated at k/n and compared exactly; parameters "
+      "outside [0,1] must be rejected; polyline / surface exports for equal and unequal sample counts must have the documented counts, "
+      "grid-consistent indices and be disks (MeshCore), their vertices exact curve / patch points. Samplers (box uniform / grid in dimension "
+      "1-4, sphere, ball with radii 1/4, 1, 3 and centres off the origin, polylines, triangulated surfaces with normals) are judged for the "
+      "count rule (nearest perfect power by integer arithmetic), all per-sample domain flags, and exact squared radii on the sphere.",
+      "NOT decided and not claimed: that the share of samples per edge / face follows length / area (statistical). Per-sample domain flags are "
+      "evaluated by the harness with float comparisons (1e-9); convex-hull membership through coordinate bounds.",
+      "TLA+ exact Bezier algebra (C19_Bezier) model-checked (C19_MC); TLC trace validation of exact values, counts and domain flags (C19_Trace)",
+      "DESIGN.md 6.19")
+
 ALL = ["C%02d" % i for i in range(1, 21)]
 
 
